@@ -1596,6 +1596,11 @@ func (v *VMValue) FuncInvokeRaw(ctx *Context, params []*VMValue, useUpCtxLocal b
 		return nil
 	}
 
+	if cd.code == nil && strings.TrimSpace(cd.Expr) == "" {
+		// 空函数体(如 func f() {})编译结果就是空程序。延迟编译时(例如从JSON恢复后)不能交给 Run: 空输入会被当作语法错误
+		cd.code = []ByteCode{}
+		cd.codeIndex = 0
+	}
 	if cd.code == nil {
 		_ = vm.Run(cd.Expr)
 		cd.code = vm.code
